@@ -608,6 +608,11 @@ class Unit:
                     rep = "" if m["stmt"] else "()"
                     edits.append(Edit(m["span"][0], m["span"][1], lambda r, rep=rep: rep))
                     self.log("R1", relfile, src, m["span"][0], f"{m['path']}!(..) deleted")
+                elif m["path"] == "format" and "r27" in opts:
+                    # R27: `format!(..)` (error / log text) -> an opaque String; the arguments must be effect-free (same audit as R1)
+                    audit_r1(m["args"], f"{relfile}:{line_of(src, m['span'][0])}")
+                    edits.append(Edit(m["span"][0], m["span"][1], lambda r: "crate::format_opaque()"))
+                    self.log("R27", relfile, src, m["span"][0], "format!(..) -> opaque String (no property specifies message text)")
                 elif m["path"] in SPAN_MACROS and "keepmacros" not in opts:
                     edits.append(Edit(m["span"][0], m["span"][1], lambda r: "()"))
                     self.log("R2", relfile, src, m["span"][0], f"{m['path']}!(..) -> ()")
